@@ -468,138 +468,6 @@ Proof.
     end.
 Qed.
 
-Lemma fun_kind_in f K : fun_kind fl f = Some K -> In (f, K) fl.
-Proof.
-  unfold fun_kind. destruct (find (fun fa => fst fa =? f) fl) as [[f' K']|] eqn:Hf; [|discriminate].
-  intros H. inversion H; subst K'. apply find_some in Hf as [Hin Heq]. cbn [fst] in Heq. apply N.eqb_eq in Heq. subst f'. exact Hin.
-Qed.
-
-(* one argument of a call: a plain expression, or the name of a function of the kind the parameter wants *)
-Definition arg_frag (k : nat) (sc : list N) (K : kind) (a : Resolved.expr) : Prop :=
-  match K with
-  | KP => frag_expr pv sv bound fl k sc a = true
-  | KF _ _ => exists K', frag_fexpr fl a = Some K' /\ kind_eqb K' K = true
-  end.
-
-Lemma frag_args_inv k sc : forall ks args, frag_args pv sv bound fl k sc ks args = true -> Forall2 (arg_frag k sc) ks args.
-Proof.
-  induction ks as [|K ks IH]; intros [|a args] H; cbn [frag_args] in H; try discriminate; [constructor | destruct K; discriminate |].
-  destruct K.
-  - apply andb_prop in H as [Ha Hr]. constructor; [exact Ha | apply IH; exact Hr].
-  - apply andb_prop in H as [Ha Hr]. constructor; [|apply IH; exact Hr].
-    cbn [arg_frag]. destruct (frag_fexpr fl a) as [K'|]; [|discriminate Ha]. exists K'. split; [reflexivity | exact Ha].
-Qed.
-
-Lemma arg_frag_ok k sc K a : arg_frag k sc K a -> arg_ok pv sv bound fl k sc a.
-Proof.
-  destruct K; cbn [arg_frag]; [intros H; left; exact H|]. intros (K' & H & _). right. destruct a; try discriminate H. eauto.
-Qed.
-
-Lemma arg_sim n g : P_eval n ->
-  forall K a k ctx c code_a va c1 e st r st1 sc l E stL F,
-    arg_frag k sc K a ->
-    SyltSem.eval n e a st = (r, st1) -> expression (S g) a ctx c = Ok ((code_a, va), c1) ->
-    ucovers u code_a -> 1 <= count_of u va -> ctx_ok l F E c c1 -> rel sc e st E stL -> interesting r ->
-    exists b l', cshape u l code_a b l' c c1 /\ c <= va /\ va < c1 /\
-      match r with
-      | SyltSem.RVal y => exists E' stL' F', okstep sc e st1 F c c1 E stL b E' stL' F' /\ adenotes W K F' E' stL' (aexpand l' va) y
-      | _ => xpost ctx sc e c c1 E stL b r st1
-      end.
-Proof.
-  intros IH K a k ctx c code_a va c1 e st r st1 sc l E stL F Hfa Hev Hlow Hu Hcva Hctx Hrel Hint.
-  destruct K; cbn [arg_frag] in Hfa.
-  - destruct (IH (S g) k a ctx c code_a va c1 e st r st1 sc l E stL F Hev Hlow Hfa Hu Hctx Hrel Hint) as (b & l' & Hs & H1 & H2 & Hp).
-    exists b, l'. split; [exact Hs|]. split; [exact H1|]. split; [exact H2|].
-    destruct r as [y|o|cc]; [|exact Hp | exact Hp]. cbn [eval_post] in Hp. destruct Hp as (E' & stL' & F' & Hok & Hd).
-    exists E', stL', F'. split; [exact Hok | exact (Hd Hcva)].
-  - destruct Hfa as (K' & Hf & Hk). apply kind_eqb_eq in Hk. subst K'.
-    destruct a; try discriminate Hf. cbn [frag_fexpr] in Hf.
-    destruct (fun_kind fl var) as [Kf|] eqn:Hfk; [|discriminate Hf]. destruct Kf; [discriminate Hf|]. inversion Hf; subst. clear Hf.
-    apply fun_kind_in in Hfk.
-    destruct (r_fund _ _ _ _ _ _ _ _ _ _ _ var _ Hrel Hfk) as (cf & pf & d & Hlkf & Hnthf & Hpf & Hcellf & Hd & Hdk).
-    assert (Hvarb : var < bound).
-    { destruct (r_flb _ _ _ _ _ _ _ _ _ _ _ Hrel var); [|assumption]. unfold fnames. apply in_map_iff. eexists. split; [|exact Hfk]. reflexivity. }
-    cbn [expression] in Hlow. mon Hlow. fresh_all. inj_code.
-    destruct n as [|n']; [cbn in Hev; inversion Hev; subst; destruct Hint|].
-    cbn [SyltSem.eval] in Hev. rewrite Hlkf in Hev. unfold SyltSem.read_cell in Hev. rewrite Hnthf in Hev. inversion Hev; subst r st1. clear Hev.
-    destruct (step_copy_fun pv sv bound u fl W sc e st F c (c + 1) E stL l c var pf (fd_fid d) Hrel Hctx ltac:(lia) Hcva Hvarb Hpf Hcellf) as (E1 & stL1 & F1 & Hok1 & Hdf).
-    eexists _, _. split; [apply cshape_plain; [lia | reflexivity | reflexivity | apply used_plain]|].
-    split; [lia|]. split; [lia|].
-    exists E1, stL1, F1. split; [exact Hok1|]. cbn [adenotes]. exists d. auto.
-Qed.
-
-Lemma adenotes_step K sc e st F1 F2 c0 c1 E1 stL1 b E2 stL2 ex av :
-  adenotes W K F1 E1 stL1 ex av -> okstep sc e st F1 c0 c1 E1 stL1 b E2 stL2 F2 -> F_out bound F1 c0 c1 ->
-  adenotes W K F2 E2 stL2 ex av.
-Proof.
-  intros Hd (_ & Hf & _ & (Hi & _) & _) Ho. eapply adenotes_mono; [exact Hd | eapply fut_wframe; eassumption | exact Hi].
-Qed.
-
-(* the arguments of a call *)
-Lemma args_sim n g : P_eval n ->
-  forall ks args k ctx c rs c' cend e st ra st' sc l E stL F,
-    SyltSem.mapM (SyltSem.eval n e) args st = (ra, st') ->
-    mapM (fun a => expression (S g) a ctx) args c = Ok (rs, c') ->
-    Forall2 (arg_frag k sc) ks args ->
-    ucovers u (concat (map fst rs)) -> (forall r, In r rs -> 1 <= count_of u (snd r)) ->
-    c' <= cend -> ctx_ok l F E c cend -> rel sc e st E stL -> interesting ra ->
-    exists b l', cshape u l (concat (map fst rs)) b l' c c' /\
-      match ra with
-      | SyltSem.RVal avs =>
-          exists E' stL' F', okstep sc e st' F c c' E stL b E' stL' F' /\ ctx_ok l' F' E' c' cend /\
-            Forall3 (fun K av t => adenotes W K F' E' stL' (aexpand l' t) av) ks avs (map snd rs)
-      | _ => xpost ctx sc e c c' E stL b ra st'
-      end.
-Proof.
-  intros IH. induction ks as [|K ks IHa]; intros args k ctx c rs c' cend e st ra st' sc l E stL F Hev Hm Hf Hu Hcnt Hce Hctx Hrel Hint.
-  - inversion Hf; subst. destruct (mapM_nil_ok _ _ _ _ Hm) as [-> ->]. cbn in Hev. inversion Hev; subst ra st'.
-    eexists _, _. split; [apply cshape_nil|]. exists E, stL, F.
-    split; [apply okstep_refl; exact Hrel | split; [exact Hctx | constructor]].
-  - inversion Hf as [|? a ? args' Hfa Hfs]; subst.
-    apply mapM_cons_ok in Hm as (y & c1 & ys & Hy & Hys & ->). destruct y as [code_a va].
-    cbn [map concat fst snd] in *. apply ucovers_app in Hu as [Hua Hus].
-    assert (Hcva : 1 <= count_of u va) by (apply (Hcnt (code_a, va)); left; reflexivity).
-    assert (Hcnts : forall r, In r ys -> 1 <= count_of u (snd r)) by (intros r Hr; apply Hcnt; right; exact Hr).
-    assert (Hoks : Forall (arg_ok pv sv bound fl k sc) args').
-    { clear - Hfs. induction Hfs; constructor; [eapply arg_frag_ok; eassumption | assumption]. }
-    assert (HLr : forall l0, exists b2 l2, cshape u l0 (concat (map fst ys)) b2 l2 c1 c')
-      by (intros l0; destruct (L_args pv sv bound u fl g (L_expr_all pv sv bound u fl (S g)) args' k ctx c1 ys c' sc l0 Hys Hoks) as (b2 & l2 & H2 & _); eauto).
-    destruct (HLr l) as (_ & _ & (_ & Hc1c' & _)).
-    assert (Hcc1 : c <= c1).
-    { destruct (L_args pv sv bound u fl g (L_expr_all pv sv bound u fl (S g)) [a] k ctx c [(code_a, va)] c1 sc l) as (_ & _ & (_ & H & _) & _); [|constructor; [eapply arg_frag_ok; eassumption | constructor]|exact H].
-      cbn [mapM]. unfold IR.bind, IR.ret. rewrite Hy. reflexivity. }
-    assert (Hctxa : ctx_ok l F E c c1) by (eapply ctx_sub; [exact Hctx | lia | lia]).
-    cbn [SyltSem.mapM] in Hev. unfold SyltSem.bind at 1 in Hev.
-    destruct (SyltSem.eval n e a st) as [ry st1] eqn:Hy1.
-    assert (Hinty : interesting ry).
-    { destruct ry as [y|o|cc]; [exact I | |]; inversion Hev; subst; exact Hint. }
-    destruct (arg_sim n g IH K a k ctx c code_a va c1 e st ry st1 sc l E stL F Hfa Hy1 Hy Hua Hcva Hctxa Hrel Hinty)
-      as (b1 & l1 & Hs1 & Hva1 & Hva2 & Hp1).
-    destruct ry as [y|o|cc].
-    2,3: (inversion Hev; subst ra st'; destruct (HLr l1) as (b2 & l2 & Hs2);
-          eexists _, _; (split; [eapply cshape_app; eassumption|]); eapply (exit_app pv sv bound u fl W ctx sc e c c1 c'); [exact Hp1 | exact Hc1c']).
-    destruct Hp1 as (E1 & stL1 & F1 & Hok1 & Hd1).
-    pose proof Hok1 as (_ & _ & Hrel1 & _).
-    assert (Hctx1 : ctx_ok l1 F1 E1 c1 cend) by (eapply ctx_after; eassumption).
-    unfold SyltSem.bind at 1 in Hev.
-    destruct (SyltSem.mapM (SyltSem.eval n e) args' st1) as [rr st2] eqn:Hrest.
-    assert (Hintr : interesting rr).
-    { destruct rr as [ys_|o|cc]; [exact I | |]; cbn in Hev; inversion Hev; subst; exact Hint. }
-    destruct (IHa args' k ctx c1 ys c' cend e st1 rr st2 sc l1 E1 stL1 F1 Hrest Hys Hfs Hus Hcnts Hce Hctx1 Hrel1 Hintr)
-      as (b2 & l2 & Hs2 & Hpost).
-    eexists _, _. split; [eapply cshape_app; eassumption|].
-    destruct rr as [ys_|o|cc]; cbn in Hev; inversion Hev; subst ra st'; clear Hev.
-    + destruct Hpost as (E2 & stL2 & F2 & Hok2 & Hctx2 & Hds).
-      exists E2, stL2, F2. split; [eapply okstep_trans; [exact Hok1 | exact Hok2 | lia | lia]|]. split; [exact Hctx2|].
-      constructor; [|exact Hds].
-      replace (aexpand l2 va) with (aexpand l1 va)
-        by (unfold aexpand; destruct Hs2 as (_ & _ & Hfr2 & _); rewrite Hfr2 by lia; reflexivity).
-      assert (Hctx1' : ctx_ok l1 F1 E1 c1 c') by (eapply ctx_sub; [exact Hctx1 | lia | exact Hce]).
-      eapply adenotes_step; [exact Hd1 | exact Hok2 | apply (cx_F _ _ _ _ _ _ Hctx1')].
-    + eapply okstep_exit; [exact Hok1 | exact Hrel | exact Hpost | lia | lia].
-    + eapply okstep_exit; [exact Hok1 | exact Hrel | exact Hpost | lia | lia].
-Qed.
-
 (* ------------------------------------------------------------------ if / elif / else *)
 
 Definition if_go (n : nat) (e : senv) : list ifbranch -> SyltSem.M sval :=
@@ -869,9 +737,9 @@ Proof.
   cbn in Hev. inversion Hev; subst. destruct Hint.
 Qed.
 
-Lemma P_eval_succ n : P_eval n -> P_bv n -> P_apply pv sv bound u fl W n -> P_eval (S n).
+Lemma P_eval_succ n : P_eval n -> P_bv n -> P_ecall pv sv bound u fl W (S n) -> P_eval (S n).
 Proof.
-  intros IH IHb IHap g k x ctx c code v c' e st r st' sc l E stL F Hev Hlow Hfrag Hu Hctx Hrel Hint.
+  intros IH IHb IHcall g k x ctx c code v c' e st r st' sc l E stL F Hev Hlow Hfrag Hu Hctx Hrel Hint.
   destruct g as [|g]; [discriminate|]. destruct k as [|k]; [discriminate|].
   destruct x; try discriminate Hfrag; cbn [frag_expr] in Hfrag.
   - (* ERead *)
@@ -887,85 +755,11 @@ Proof.
     cbn [eval_post]. exists E', stL', F'. split; [exact Hok | exact Hden].
   - (* ECall *)
     destruct x; try discriminate Hfrag.
-    assert (Hfrag' : frag_expr pv sv bound fl (S k) sc (Resolved.ECall (ERead var sp0) args sp) = true) by exact Hfrag.
-    rewrite frag_expr_call in Hfrag'. clear Hfrag. rename Hfrag' into Hfrag.
+    assert (Hfrag0 : frag_expr pv sv bound fl (S k) sc (Resolved.ECall (ERead var sp0) args sp) = true) by exact Hfrag.
+    pose proof Hfrag0 as Hfrag'. rewrite frag_expr_call in Hfrag'. clear Hfrag. rename Hfrag' into Hfrag.
     destruct (N.eqb_spec var pv) as [->|Hnpv].
-    2: { (* f(a1, ..., an) *)
-      destruct (fun_kind fl var) as [Kf|] eqn:Har; [|discriminate Hfrag].
-      destruct Kf as [|ks [|? ?]]; try discriminate Hfrag.
-      apply fun_kind_in in Har.
-      destruct (r_fund _ _ _ _ _ _ _ _ _ _ _ var _ Hrel Har) as (cf & pf & d & Hlkf & Hnthf & Hpf & Hcellf & Hd & Hdk).
-      assert (Hpk : fd_pk d = ks) by (unfold dkind in Hdk; inversion Hdk; reflexivity). subst ks.
-      assert (Hvarb : var < bound).
-      { destruct (r_flb _ _ _ _ _ _ _ _ _ _ _ Hrel var); [|assumption]. unfold fnames. apply in_map_iff. eexists. split; [|exact Har]. reflexivity. }
-      pose proof (frag_args_inv k sc _ args Hfrag) as Hfr.
-      cbn [expression] in Hlow. mon Hlow.
-      destruct g as [|g']; [discriminate|].
-      cbn [expression] in Hm. mon Hm. fresh_all. inj_code. rename a0 into rs. rename c1 into ca.
-      cbn [fst snd] in *.
-      (* the reference interpreter *)
-      cbn [SyltSem.eval] in Hev.
-      destruct n as [|n']; [cbn in Hev; inversion Hev; subst; destruct Hint|].
-      apply sbind_inv in Hev as [(fv & st1 & Hfv & Hev) | [(o & Hfv & ->) | (cc & Hfv & ->)]].
-      2,3: cbn [SyltSem.eval] in Hfv; rewrite Hlkf in Hfv; unfold SyltSem.read_cell in Hfv; rewrite Hnthf in Hfv; discriminate.
-      cbn [SyltSem.eval] in Hfv. rewrite Hlkf in Hfv. unfold SyltSem.read_cell in Hfv. rewrite Hnthf in Hfv.
-      inversion Hfv; subst fv st1. clear Hfv.
-      unfold SyltSem.bind at 1 in Hev.
-      destruct (SyltSem.mapM (SyltSem.eval (S n') e) args st) as [ra st1] eqn:Hy.
-      assert (Hia : interesting ra).
-      { destruct ra; cbn in Hev; [exact I | inversion Hev; subst; exact Hint | inversion Hev; subst; exact Hint]. }
-      (* structure and usage counts *)
-      assert (Hoks : Forall (arg_ok pv sv bound fl k sc) args).
-      { clear - Hfr. induction Hfr; constructor; [eapply arg_frag_ok; eassumption | assumption]. }
-      destruct (L_args pv sv bound u fl g' (L_expr_all pv sv bound u fl (S g')) args k ctx (c + 1) rs ca sc l Hm0 Hoks)
-        as (_ & _ & (_ & Hca & _) & Hrsr).
-      apply ucovers_cons in Hu as [_ Hu]. apply ucovers_app in Hu as [Hua Huc].
-      assert (Hcc : 1 <= count_of u c) by (eapply Huc; [left; reflexivity | cbn [ir_uses]; left; reflexivity]).
-      assert (Hcnt : forall r0, In r0 rs -> 1 <= count_of u (snd r0)).
-      { intros r0 Hr0. eapply Huc; [left; reflexivity | cbn [ir_uses]; right; apply in_map; exact Hr0]. }
-      (* the callee *)
-      assert (Hctx0 : ctx_ok l F E c (c + 1)) by (eapply ctx_sub; [exact Hctx | lia | lia]).
-      destruct (step_copy_fun pv sv bound u fl W sc e st F c (c + 1) E stL l c var pf (fd_fid d) Hrel Hctx0 ltac:(lia) Hcc Hvarb Hpf Hcellf) as (E1 & stL1 & F1 & Hok1 & Hdf).
-      assert (Hs0 : cshape u l [ICopy c var] (fst (agen_one u l (ICopy c var))) l c (c + 1))
-        by (apply cshape_plain; [lia | reflexivity | reflexivity | apply used_plain]).
-      assert (Hctx1 : ctx_ok l F1 E1 (c + 1) (ca + 1)) by (eapply (ctx_after sc e st l F E stL c (c + 1) (ca + 1)); [exact Hctx | exact Hs0 | exact Hok1]).
-      pose proof Hok1 as (Hx1 & _ & Hrel1 & _).
-      (* the arguments *)
-      destruct (args_sim (S n') g' IH (fd_pk d) args k ctx (c + 1) rs ca (ca + 1) e st ra st1 sc l E1 stL1 F1 Hy Hm0 Hfr Hua Hcnt ltac:(lia) Hctx1 Hrel1 Hia)
-        as (b_a & l1 & Hsa & Hpa).
-      assert (Hs01 : cshape u l (ICopy c var :: concat (map fst rs)) (fst (agen_one u l (ICopy c var)) ++ b_a) l1 c ca)
-        by (eapply cshape_cons; eassumption).
-      assert (Hshape : cshape u l (ICopy c var :: concat (map fst rs) ++ [ICall ca c (map snd rs)])
-                         ((fst (agen_one u l (ICopy c var)) ++ b_a) ++ fst (agen_one u l1 (ICall ca c (map snd rs)))) l1 c (ca + 1)).
-      { change (ICopy c var :: concat (map fst rs) ++ [ICall ca c (map snd rs)])
-          with ((ICopy c var :: concat (map fst rs)) ++ [ICall ca c (map snd rs)]).
-        eapply cshape_app; [exact Hs01|]. apply (cshape_plain u l1 (ICall ca c (map snd rs)) ca (ca + 1)); [lia | reflexivity | reflexivity | reflexivity]. }
-      eexists _, _. split; [exact Hshape|]. split; [lia|]. split; [lia|].
-      destruct ra as [avs|o|cc]; cbn in Hev.
-      - (* the arguments have values: the call *)
-        destruct Hpa as (E2 & stL2 & F2 & Hok2 & Hctx2 & Hds).
-        pose proof Hok2 as (_ & _ & Hrel2 & _).
-        assert (Hok12 : okstep sc e st1 F c ca E stL (fst (agen_one u l (ICopy c var)) ++ b_a) E2 stL2 F2)
-          by (eapply okstep_trans; [exact Hok1 | exact Hok2 | lia | lia]).
-        assert (Hdf2 : ldenotes F2 E2 stL2 (aexpand l1 c) (VFun (fd_fid d))).
-        { replace (aexpand l1 c) with (aexpand l c).
-          - assert (Hctx1' : ctx_ok l F1 E1 (c + 1) ca) by (eapply ctx_sub; [exact Hctx1 | lia | lia]).
-            eapply ldenotes_step; [exact Hdf | exact Hok2 | apply (cx_F _ _ _ _ _ _ Hctx1')].
-          - unfold aexpand. destruct Hsa as (_ & _ & Hfr1 & _). rewrite Hfr1 by lia. reflexivity. }
-        pose proof (step_call_fun pv sv bound u fl W (S n') ctx sc e st1 F2 ca (ca + 1) E2 stL2 l1 ca c (map snd rs) avs d r st'
-                      IHap Hrel2 Hctx2 ltac:(lia) Hd Hdf2 Hds Hev Hint) as Hcall.
-        destruct r as [rv|o|cc]; cbn [eval_post].
-        + destruct Hcall as (E3 & stL3 & F3 & Hok3 & Hd3).
-          exists E3, stL3, F3. split; [|intros _; exact Hd3].
-          eapply okstep_trans; [exact Hok12 | exact Hok3 | lia | lia].
-        + eapply okstep_exit; [exact Hok12 | exact Hrel | exact Hcall | lia | lia].
-        + eapply okstep_exit; [exact Hok12 | exact Hrel | exact Hcall | lia | lia].
-      - inversion Hev; subst r st'. clear Hev. cbn [eval_post] in *.
-        eapply (exit_app pv sv bound u fl W ctx sc e c ca (ca + 1)); [|lia].
-        eapply (okstep_exit ctx sc e st st F F1 c (c + 1) ca); [exact Hok1 | exact Hrel | exact Hpa | lia | exact Hca].
-      - inversion Hev; subst r st'. clear Hev. cbn [eval_post] in *.
-        eapply (exit_app pv sv bound u fl W ctx sc e c ca (ca + 1)); [|lia].
-        eapply (okstep_exit ctx sc e st st F F1 c (c + 1) ca); [exact Hok1 | exact Hrel | exact Hpa | lia | exact Hca]. }
+    2: { (* f(a1, ..., an): SimEcall *)
+      apply (IHcall (S g) (S k) var sp0 args sp ctx c code v c' e st r st' sc l E stL F Hnpv Hev Hlow Hfrag0 Hu Hctx Hrel Hint). }
     (* print(a) *)
     destruct args as [|a [|? ?]]; try discriminate Hfrag.
     apply andb_prop in Hfrag as [Hfrag Hfr].
